@@ -34,6 +34,43 @@ BAD_UTF8_ESCAPES = [
 MALFORMED = ["%", "%%", "%a", "%A", "%zz", "%1g", "%g1", "% 1", "%+1", "%é", "%１２", "%٤١", "%2", "%2%", "%%20", "%2%30"]
 
 
+_CONFUSABLES = None
+
+
+def ascii_confusables():
+    """Every non-ASCII code point that some standard text transformation turns (partly) into ASCII - lower/upper/casefold,
+    NFKC/NFKD - or that str.isdigit/isdecimal/isspace accepts: the characters a regex flag, a case-insensitive
+    comparison, int(), strip() or a normaliser silently treats like their ASCII counterpart.  (Full scan, ~3 s, cached.)"""
+    global _CONFUSABLES
+    if _CONFUSABLES is None:
+        import unicodedata
+
+        out = []
+        for cp in range(0x80, 0x110000):
+            if 0xD800 <= cp <= 0xDFFF:
+                continue
+            c = chr(cp)
+            hit = c.isdigit() or c.isdecimal() or c.isspace()
+            if not hit:
+                for v in (c.lower(), c.upper(), c.casefold()):
+                    if any(ord(x) < 128 for x in v):
+                        hit = True
+                        break
+            if not hit:
+                for form in ("NFKC", "NFKD"):
+                    if any(ord(x) < 128 for x in unicodedata.normalize(form, c)):
+                        hit = True
+                        break
+            if hit:
+                out.append(c)
+        _CONFUSABLES = out
+    return _CONFUSABLES
+
+
+# a small fixed subset for cheap use inside random generators
+CONFUSABLE_SAMPLE = ["\u212a", "\u017f", "\u0131", "\u0130", "\uff21", "\uff41", "\uff10", "\uff05", "\u2100", "\u00b2", "\u0660", "\u2024", "\u3000", "\u2028", "\u0085", "\ufe6a", "\uff0f", "\u1d2c", "\u24b6", "\U0001d400", "\U0001d7ce", "\u2160", "\u00aa", "\u2170"]
+
+
 class TextGen:
     """Generates component texts mixing the classes listed in DESIGN 3.4."""
 
@@ -66,6 +103,9 @@ class TextGen:
             return "malformed", r.choice(MALFORMED)
         if k < 0.88:
             return "dots", r.choice([".", "..", "./", "../", "/.", "/..", "...", "..a", "...tar", "..a.b", ".a"])
+        if k < 0.9 and k >= 0.895 and self.nonascii:
+            c = r.choice(CONFUSABLE_SAMPLE)
+            return "confusable", r.choice([c, "%" + c + c, "%4" + c, c + ":", c + "1"])
         if k < 0.895 and self.nonascii:
             a = r.choice(ALIAS_CHARS)
             return "alias", r.choice(["%" + a + r.choice(ALIAS_CHARS), "%4" + a, "%" + a + "1", a, a + a])
@@ -127,7 +167,9 @@ def is_trivial_text(s: str) -> bool:
 
 # ----------------------------------------------------------------------
 SCHEMES_VALID = ["http", "https", "ws", "wss", "ftp", "HTTP", "Https", "foo", "file", "mailto", "git+ssh", "a", "x-y.z", "svn"]
-REG_HOSTS = ["example.com", "EXAMPLE.Com", "a", "a.b.c", "xn--9ca.com", "host-1", "a_b.com", "h!$&'()*+,;=x", "sub.domain.example.org.", "1a", "a1", "localhost"]
+REG_HOSTS = ["example.com", "EXAMPLE.Com", "a", "a.b.c", "xn--9ca.com", "host-1", "a_b.com", "h!$&'()*+,;=x", "sub.domain.example.org.", "1a", "a1", "localhost",
+             # pct-encoded octets are legal in a reg-name; the digit-final ones look like an IP literal to a quick test
+             "a%20b1", "x%41y.z2", "node%2502", "caf%c3%a9.shop24", "a%20b", "%7euser.example"]
 IDN_HOSTS = ["é.com", "bücher.example", "例え.jp", "ЖЖ.рф", "xn--bcher-kva.example", "é", "straße.de", "ǅ.com"]
 IDN2003_HOSTS = ["a_b.é", "☃.net", "A_b.é", "😀.com", "_dmarc.é.com"]
 IPV4_HOSTS = ["127.0.0.1", "0.0.0.0", "255.255.255.255", "1.2.3.4", "10.0.0.1"]
@@ -219,7 +261,7 @@ class URLGen:
         if has_scheme:
             sch = r.choice(SCHEMES_VALID)
             if not self.valid_only and r.random() < 0.05:
-                sch = r.choice(["1a", "a b", "+x", "a%41", "é"])
+                sch = r.choice(["1a", "a b", "+x", "a%41", "é", "\u212aafka", "s\u212ah", "http\u017f", "\uff48ttp", "ht\u2024tp", "\u0130s"])
             s += sch + ":"
             feat["scheme"] = sch
         has_auth = r.random() < (0.8 if has_scheme else 0.4)
